@@ -49,20 +49,18 @@ Qed.
 
 (* ---------------------------------------------------------------------------------------------------------------- *)
 (* The staircase clause: PROVED (round 2) for every source -- holds with plain / int / affine voltages on any number of
-   channels, sequences, iterations with any start/stop/step, repetitions of any count, nested to any depth -- under four
+   channels, sequences, iterations with any start/stop/step, repetitions of any count, nested to any depth -- under three
    executable hypotheses:
      src_wf                             one voltage per channel in every hold, steps <> 0
      guard_C17_zero_factor_depth 0      no index-dependent voltage whose coefficients of the ENCLOSING loops are all zero
      guard_C17_key_collision            no two different factor tuples of one channel share a DepKey (rounding to 1e-9 /
                                         stripped trailing zeros); this also excludes dep-key-shared-across-depths
-     guard_C17_repetition_entry_state   the ghost flag: every repetition emitted as a direct loop re-translates to the
-                                        same commands from the state its body leaves behind
    Whenever the pipeline build -> translate -> VM returns a history, it is the staircase of the source (all start times
    equal, all voltages equal as rationals, no NaN) and the total durations agree.  No fuel assumption: any fuel for which
-   the VM halts gives this history. *)
+   the VM halts gives this history.  The model is the translator AFTER the repair of `repetition-entry-state`
+   (_entry_state_unchanged_since); the ghost flag of round 1 is gone from the hypotheses. *)
 Theorem C17_staircase : forall channels s fuel h t,
   src_wf channels s = true -> guard_C17_zero_factor_depth 0 s = true -> guard_C17_key_collision s = true ->
-  guard_C17_repetition_entry_state s = true ->
   pipeline fuel channels s = Ok (h, t) ->
   plays h (fst (staircase s)) = true /\ Qeq_bool t (snd (staircase s)) = true.
 Proof. exact staircase_full. Qed.
@@ -70,11 +68,11 @@ Print Assumptions C17_staircase.
 
 Example C17_staircase_nonvacuous :
   src_wf 2 wit_good = true /\ guard_C17_zero_factor_depth 0 wit_good = true /\ guard_C17_key_collision wit_good = true /\
-  guard_C17_repetition_entry_state wit_good = true /\ exists h t, pipeline 1000 2 wit_good = Ok (h, t) /\ length h = 21%nat.
+  exists h t, pipeline 1000 2 wit_good = Ok (h, t) /\ length h = 21%nat.
 Proof. exact staircase_full_nonvacuous. Qed.
 
-(* Without the ghost flag: sources whose built program contains no repetition node (iterations, sequences, holds; any
-   depth).  guard_C17_built_ok false = executable check on the builder output (structure, key <> (), key collisions). *)
+(* The same stated on the builder output, for sources whose built program contains no repetition node (iterations,
+   sequences, holds; any depth).  guard_C17_built_ok false = executable check on the builder output (structure, key <> (), key collisions). *)
 Theorem C17_staircase_partial : forall channels s fuel h t,
   guard_C17_built_ok false channels s = true ->
   pipeline fuel channels s = Ok (h, t) ->
@@ -113,18 +111,15 @@ Theorem C17_staircase_statement_refuted_extra_coefficient :
 Proof. exact statement_refuted_extra_coef. Qed.
 Print Assumptions C17_staircase_statement_refuted_extra_coefficient.
 
-(* The guards are necessary: the faithful model of the unchanged translator violates the unguarded statement (witnesses =
-   the known findings). *)
+(* The guards are necessary: the faithful model of the translator violates the unguarded statement (witnesses = the
+   known findings that remain). *)
 
-(* repetition-entry-state, plain voltage elided at the loop entry: hold(1.5); 3 x (hold(1.5); hold(2.5)) *)
-Theorem C17_staircase_refuted_repetition : ~ C17_staircase_unguarded true false.
-Proof. exact staircase_refuted_repetition. Qed.
-Print Assumptions C17_staircase_refuted_repetition.
-
-(* repetition-entry-state, truncated dependency key: for j: 2 x (for i: hold(i/4 + j)) *)
-Theorem C17_staircase_refuted_repetition_inner_iteration : ~ C17_staircase_unguarded true false.
-Proof. exact staircase_refuted_repetition_inner. Qed.
-Print Assumptions C17_staircase_refuted_repetition_inner_iteration.
+(* the witnesses of the former finding `repetition-entry-state` (hold(1.5); 3 x (hold(1.5); hold(2.5)) and
+   for j: 2 x (for i: hold(i/4 + j))) play their staircase in the model of the repaired translator *)
+Example C17_repaired_repetition_witnesses :
+  (exists h t, pipeline 200 1 wit_rep = Ok (h, t) /\ plays h (fst (staircase wit_rep)) = true) /\
+  (exists h t, pipeline 400 1 wit_rep_inner = Ok (h, t) /\ plays h (fst (staircase wit_rep_inner)) = true).
+Proof. exact repaired_repetition_witnesses. Qed.
 
 (* zero-factor-aliases-plain: for i: hold(-0.5); hold(0 + 0*i); hold(-0.5) *)
 Theorem C17_staircase_refuted_zero_factor : ~ C17_staircase_unguarded false true.
